@@ -888,22 +888,41 @@ def enum_shards(ctx: Ctx) -> T.List[tuple]:
 # deterministic probes (confirmed findings keep one probe each)
 
 def probe_nocopy_read(ctx: Ctx) -> None:
-    """ninjabackend.py:3991-3992: elem.add_item('LINK_ARGS', commands) reads with to_native() and then
-    create_target_linker_introspection(commands) reads the same object again."""
-    a = make_real('clike', None)
-    a += ['-O2', 'liba.a', 'libb.a']
-    first = a.to_native()
-    second = a.to_native(copy=True)
-    want = ref_native('clike', ['-O2', 'liba.a', 'libb.a'])
-    ctx.ev.case({'probe': 'to_native(); to_native(copy=True)'}, cls='probe')
-    if first != want:
-        ctx.fail(Failure('native/terminal', {'probe': 'nocopy'}, f'to_native() gave {first}, expected {want}'))
-    elif second != first:
-        ctx.fail(Failure('native/nocopy-read-then-read:group-flags-doubled', {'probe': 'nocopy-read-then-read'},
-                         "a += ['-O2','liba.a','libb.a']; a.to_native() -> " + f'{first}; a second read a.to_native(copy=True) -> {second}: '
-                         'the first read inserted -Wl,--start-group/--end-group into the list itself, the second read invents them again. '
-                         'The ninja backend does exactly this (add_item(LINK_ARGS) then create_target_linker_introspection), so '
-                         'intro-targets.json shows doubled group flags that are not on the real link line.'))
+    """The ninja backend reads the link arguments twice: elem.add_item('LINK_ARGS', commands) and then
+    create_target_linker_introspection(commands).  A first read that converts the list in place (to_native() without
+    copy inserts -Wl,--start-group/--end-group into the object itself) makes the second read invent the group flags
+    again.  Checked through the real caller: configure an executable linking two static libraries and compare the
+    linker parameters in intro-targets.json with LINK_ARGS in build.ninja (to_native(copy=False) on a bare object is
+    destructive by design and stays excluded from the campaigns)."""
+    import json as _json
+    from harness import mesondrv as M
+    root = make_scratch('C13-probe')
+    try:
+        src, bld = os.path.join(root, 's'), os.path.join(root, 'b')
+        M.write_tree(src, {
+            'meson.build': "project('p', 'c')\na = static_library('a', 'a.c')\nb = static_library('b', 'b.c')\n"
+                           "executable('e', 'e.c', link_with: [a, b])\n",
+            'a.c': 'int fa(void) { return 1; }\n', 'b.c': 'int fb(void) { return 2; }\n',
+            'e.c': 'int fa(void); int fb(void); int main(void) { return fa() + fb() - 3; }\n'})
+        r = M.run_sub(['setup', bld, src], cwd=root)
+        ctx.ev.case({'probe': 'intro-targets linker parameters vs LINK_ARGS'}, cls='probe')
+        if r.rc != 0:
+            raise HarnessError(f'C13 probe project does not configure: {r!r}')
+        with open(os.path.join(bld, 'meson-info', 'intro-targets.json'), encoding='utf-8') as fh:
+            tg = [t for t in _json.load(fh) if t['name'] == 'e'][0]
+        params = [p_ for ts in tg['target_sources'] if 'linker' in ts for p_ in ts['parameters']]
+        n_start, n_end = params.count('-Wl,--start-group'), params.count('-Wl,--end-group')
+        with open(os.path.join(bld, 'build.ninja'), encoding='utf-8') as fh:
+            link_args = [ln for ln in fh.read().split('\n') if ln.startswith(' LINK_ARGS =') and 'liba.a' in ln]
+        n_real = link_args[0].count('-Wl,--start-group') if link_args else -1
+        if n_start != n_real or n_end != n_real:
+            ctx.fail(Failure('native/nocopy-read-then-read:group-flags-doubled', {'probe': 'nocopy-read-then-read'},
+                             f"executable('e', 'e.c', link_with: [a, b]) with two static libraries: build.ninja has "
+                             f'{n_real} -Wl,--start-group on the link line ({link_args[:1]}), intro-targets.json lists the linker '
+                             f'parameters {params}: the first read of the argument list (add_item -> to_native()) changed the list, '
+                             'the second read (introspection) invented the group flags again.'))
+    finally:
+        shutil.rmtree(root, ignore_errors=True)
 
 
 # ---------------------------------------------------------------------------
